@@ -12,7 +12,8 @@
 (* rule).  P is a KKT set iff x_P > 0 (primal) and (A x - c)_i >= 0 for i \notin P (dual).        *)
 (* Theorems checked by TLC on every problem of the domain (invariant SpecOK):                     *)
 (*   - exactly one P is a KKT set (existence and uniqueness of the minimiser's support);          *)
-(*   - its point x* has an objective <= that of every feasible lattice neighbour x* + d/den,      *)
+(*   - its point x* has a *documented* objective (ObjDoc, written from G, b, l1, l2 directly)     *)
+(*     <= that of every feasible lattice neighbour x* + d/den                                    *)
 (*     and of every integer point of the box {0..BoxMax}^n;                                       *)
 (*   - the unconstrained solution (what admm(n_const=None) documents) satisfies A x = c exactly   *)
 (*     and coincides with x* whenever it is non-negative.                                         *)
@@ -97,8 +98,11 @@ Solve(pr) == LET A == AMat(pr)
 \* the unconstrained minimiser (all coordinates free)
 SolveFree(pr) == FaceSol(AMat(pr), CVec(pr), 1..Len(pr.G))
 
-\* den^2 (x^T A x - 2 c^T x)  for x = num/den: twice the objective, up to the positive factor q den^2
-Obj2(A, c, num, den) == DotN(num, MatVec(A, num)) - 2 * den * DotN(c, num)
+\* The documented objective itself (not the integer form A, c):
+\*   2 q den^2 (1/2 x^T G x - b^T x + l1 sum(x) + l2 |x|^2)   for x = num/den, l1 = p1/q, l2 = p2/q
+ObjDoc(pr, num, den) ==
+    pr.q * DotN(num, MatVec(pr.G, num)) - 2 * pr.q * den * DotN(pr.b, num)
+      + 2 * pr.p1 * den * SumN(num) + 2 * pr.p2 * DotN(num, num)
 
 ProblemOK(pr) ==
     LET n == Len(pr.G) IN
@@ -106,14 +110,14 @@ ProblemOK(pr) ==
     /\ IsSPD(pr.G) /\ IsSPD(A)
     /\ \A K \in {KKTSets(A, c)} :
         /\ Cardinality(K) = 1
-        /\ \A P \in K : \A x \in {FaceSol(A, c, P)} : \A ox \in {Obj2(A, c, x.num, x.den)} :
+        /\ \A P \in K : \A x \in {FaceSol(A, c, P)} : \A ox \in {ObjDoc(pr, x.num, x.den)} :
             \* lattice neighbours at the resolution of the solution
             /\ \A d \in [1..n -> {-1, 0, 1}] :
                  \A y \in {[i \in 1..n |-> x.num[i] + d[i]]} :
-                    (\A i \in 1..n : y[i] >= 0) => ox <= Obj2(A, c, y, x.den)
+                    (\A i \in 1..n : y[i] >= 0) => ox <= ObjDoc(pr, y, x.den)
             \* integer points of the box
             /\ \A y0 \in [1..n -> 0..BoxMax] :
-                 ox <= Obj2(A, c, [i \in 1..n |-> y0[i] * x.den], x.den)
+                 ox <= ObjDoc(pr, [i \in 1..n |-> y0[i] * x.den], x.den)
             \* unconstrained solution: exact stationarity; equals x* when non-negative
             /\ \A u \in {FaceSol(A, c, 1..n)} :
                  /\ \A i \in 1..n : DotN(A[i], u.num) = c[i] * u.den
